@@ -157,6 +157,17 @@ CHECKS = {
               "to the uninterrupted run, and two independently constructed optimizers give identical runs."),
         note="Trusted: flax.serialization; restored NumPy leaves enter through the jit/pmap argument boundary (documented domain).",
         design="DESIGN.md section 3, C14"),
+    "C15": dict(
+        category="exploration",
+        technique="property-based conformance testing of tearfree() against an independent float64 NumPy model of the documented composition (merge/pad, blocked Shampoo with per-block eigenvalue cut, graft, momentum, weight decay, lr) plus metamorphic twins on the real code (lr x2, pre-merged, hand-padded)",
+        text=("Generated option records x trees x histories (~480 configurations quick). Shampoo runs in float64 (x64) and is compared end "
+              "to end: block statistics (1e-8), roots (1e-6) and updates (1e-7) at every step, documented rejections (unit dims, >2 large "
+              "dims) must occur exactly when the reference predicts them. Sketchy runs in float32: the direction is recomputed densely "
+              "from its own sketch state (sketch laws are C09) and the graft/momentum/weight-decay/lr composition is compared at 2e-4 plus "
+              "a computed cancellation bound. Doubling the learning rate must double the update exactly; merging and zero padding must "
+              "not change delivered values and padding entries must stay exactly zero."),
+        note="Trusted: the NumPy reference in vp/props/c15_tearfree.py (written from the docstrings), optax.adafactor for ADAFACTOR grafting.",
+        design="DESIGN.md section 3, C15"),
 }
 
 NOT_YET = {}
